@@ -385,8 +385,11 @@ namespace chaiscript {
                                         assert(children.size() == 1);
                                         chaiscript::eval::detail::Scope_Push_Pop spp(t_ss);
 
-                                        int i = start_int;
-                                        t_ss.add_object(id, var(&i));
+                                        // the counter is owned by the Boxed_Value, so that a closure capturing the loop
+                                        // variable keeps it alive after the loop (and this native frame) has finished
+                                        Boxed_Value counter = var(start_int);
+                                        int &i = *static_cast<int *>(counter.get_ptr());
+                                        t_ss.add_object(id, counter);
 
                                         try {
                                           for (; i < end_int; ++i) {
